@@ -3,7 +3,7 @@
 cd /verif || exit 2
 sid=$1; shift
 if ! git -C /repo diff --quiet; then echo "/repo dirty"; exit 2; fi
-git -C /repo apply /verif/seeded/$sid/patch.diff || { echo "patch does not apply"; exit 2; }
+if [ -f /verif/seeded/$sid/patch_on_fixed_tree.diff ]; then P=/verif/seeded/$sid/patch_on_fixed_tree.diff; else P=/verif/seeded/$sid/patch.diff; fi; git -C /repo apply $P || { echo "patch does not apply"; exit 2; }
 for p in "$@"; do
   out=$(./run $p quick 2>&1); rc=$?
   echo "== $sid vs $p: exit $rc; $(echo "$out" | grep -c '^VIOLATION') VIOLATION lines"
